@@ -27,7 +27,7 @@ func C14(r *core.Report) {
 	c14SingleReassemblyPath(r)
 	c14NoConstantCap(r)
 	decodeTargetsAreFresh(r, "C14.R8")
-	r.Floor("C14.R8", 2)
+	r.Floor("C14.R8", 1)
 	r.Floor("C14.R7", 2)
 	r.Floor("C14.R6", 6)
 	r.Floor("C14.R1", 4)
